@@ -644,10 +644,16 @@ func (e *Engine) evalCall(x *Expr, se *SpecEnv) Val {
 	case "off":
 		return mkInt(arg(0).L[1])
 	case "ref":
-		return mkInt(arg(0).L[0])
+		if a := arg(0); len(a.L) > 0 {
+			return mkInt(a.L[0])
+		}
+		return mkInt(IntLit(0))
 	case "fresh":
 		// allocated by this call: reference / base at or above the entry allocation counter
 		a := arg(0)
+		if a.T == nil || len(a.L) == 0 {
+			return mkBool(False) // no such value on this path (e.g. an action argument that does not exist)
+		}
 		if _, isPtr := a.T.Underlying().(*types.Pointer); isPtr || mapTypeOf(a.T) != nil {
 			return mkBool(Ge(e.allocID(a.L[0]), e.next0))
 		}
@@ -749,6 +755,13 @@ func (e *Engine) evalCall(x *Expr, se *SpecEnv) Val {
 			}
 		}
 		return mkInt(IntLit(-1))
+	case "logsucc":
+		// logsucc(f): how many of the logged calls of f returned true
+		name := e.logKey(x.Args[0].Name, se)
+		if l, ok := se.st.logs[name]; ok {
+			return mkInt(e.logSucc(l))
+		}
+		return mkInt(IntLit(0))
 	case "loglenbefore":
 		// loglenbefore(f, i): how many calls of f had been logged when action i was performed
 		it := e.evalSpec(x.Args[1], se).L[0]
